@@ -8,7 +8,7 @@ cd "$(dirname "$0")/sim" || exit 2
 export CARGO_NET_OFFLINE=true CARGO_TARGET_DIR=/verif/target/miri
 case "$prop" in
   C04) feats="get-info-full,large-blobs,third-party-payment"; procs=12; per=4; maxsteps=40 ;;
-  C19) feats="get-info-full,large-blobs,third-party-payment,std,arbitrary"; procs=14; per=3; maxsteps=90 ;;
+  C19) feats="get-info-full,large-blobs,third-party-payment,std,arbitrary"; procs=14; per=3; maxsteps=40 ;;
   *) echo "usage: miri.sh C04|C19 seed"; exit 2 ;;
 esac
 command -v cargo >/dev/null || exit 2
